@@ -9,6 +9,8 @@ CONSTANTS
   EmptyReq = "empty"
   ModeReq = "mode"
   Variant = "asWritten"
+  TrackHeld = FALSE
+  ReturnsView = FALSE
 INVARIANT Purity
 INVARIANT ArgsUntouched
 CHECK_DEADLOCK FALSE
